@@ -33,7 +33,7 @@ class Line:
         self.kind, self.name, self.comment, self.directive, self.value = kind, name, comment, directive, value
 
     def __repr__(self) -> str:
-        body = {"F": "uint8 %s" % self.name, "K": "uint8 %s = 1" % self.name, "P": "void8", "D": "@" + self.directive, "M": "---", "C": "", "B": "", "W": "   ", "O": "@print _offset_", "X": "@%s %r" % (self.directive, (self.value or ("", ""))[1])}[self.kind]
+        body = {"F": "uint8 %s" % self.name, "K": "uint8 %s = 1" % self.name, "P": "void8", "D": "@" + self.directive, "M": "---", "C": "", "B": "", "W": "   ", "O": "@print _offset_", "X": "@%s %s" % (self.directive, ("'%s'" % self.value[1]) if self.value and self.value[0] == "String" else repr((self.value or ("", ""))[1]))}[self.kind]
         if self.comment is not None:
             body = (body + " " if body else "") + "#" + self.comment
         return body
@@ -142,15 +142,11 @@ class DocRun:
         self.prints: List[Tuple[Any, ...]] = []  # what the print handler received
 
 
-def read_lines(pm: ParserModel, lines: Sequence[Line], final_eol: bool) -> DocRun:
-    """the visits parsimonious makes for the text, evaluated; then finalize()"""
+def drive(pm: ParserModel, me: Any, hook: Any, lines: Sequence[Line], final_eol: bool, out: DocRun) -> None:
+    """the visits parsimonious makes for the text (children before their parent, left to right), on the parser instance `me`"""
     ctx = pm.ctx
-    from ..absint import Recorder
+    from ..core import dotted as _dotted
     from ..layout import TBls
-
-    handler = Recorder("print-handler")
-    me, b, run, hook = pm.fresh(handler=handler)
-    out = DocRun()
 
     def uint8(label: str) -> Sym:
         # one type object per statement, so that what reaches the model can be told apart by identity
@@ -172,6 +168,15 @@ def read_lines(pm: ParserModel, lines: Sequence[Line], final_eol: bool) -> DocRu
                 return v
             if line.kind == "X":
                 k = ctx.cls("_expression._primitive." + line.value[0])
+                if line.value[0] == "String" and "\n" in line.value[1]:
+                    # a string literal with raw line breaks: its terminal's visitor sees the raw text (and has to count the breaks);
+                    # the decoding of the literal's escapes is not what is observed here
+                    def lit_hook(e: ast.expr, f: Folder) -> Any:
+                        if isinstance(e, ast.Call) and (_dotted(e.func) or "").split(".")[-1] == "_parse_string_literal":
+                            return construct(ctx, k, line.value[1], hook=hook)
+                        return hook(e, f)
+
+                    return pm.visit(me, lit_hook, "literal_string_single_quoted", node("'%s'" % line.value[1]), [])
                 return construct(ctx, k, line.value[1], hook=hook)
             return Sym(_isa_=frozenset({"Any", "Primitive", "Rational"}), _kind_="Rational", label="value@%d" % i)
         return node(" ")
@@ -179,28 +184,25 @@ def read_lines(pm: ParserModel, lines: Sequence[Line], final_eol: bool) -> DocRu
     stmt_rule = {"F": "statement_field", "K": "statement_constant", "P": "statement_padding_field", "D": "statement_directive_without_expression", "M": "statement_service_response_marker", "O": "statement_directive_with_expression", "X": "statement_directive_with_expression"}
     wrappers = {"F": ["statement_attribute", "statement"], "K": ["statement_attribute", "statement"], "P": ["statement_attribute", "statement"], "D": ["statement_directive", "statement"], "M": ["statement"], "O": ["statement_directive", "statement"], "X": ["statement_directive", "statement"]}
     all_lines = list(lines) + ([Line("B")] if final_eol else [])
-    try:
-        for i, ln in enumerate(all_lines):
-            if i:
-                pm.visit(me, hook, "end_of_line", node("\n"), [])
-            kids: List[Any] = []
-            if ln.kind in stmt_rule:
-                rule = stmt_rule[ln.kind]
-                children = [child_of(el, ln, i) for el in pm.seq_of(rule)] if ln.kind != "M" else []
-                st_text = repr(Line(ln.kind, ln.name, None, ln.directive))
-                r = pm.visit(me, hook, rule, node(st_text), children)
-                for w in wrappers[ln.kind]:
-                    r = pm.visit(me, hook, w, node(st_text), [r])
-                kids.append(r)
-            if ln.comment is not None:
-                kids.append(pm.visit(me, hook, "comment", node("#" + ln.comment), []))
-            pm.visit(me, hook, "line", node(repr(ln)), kids)
-        pm.visit(me, hook, "definition", node(text_of(lines, final_eol)), [])
-        out.result = Folder({"b": b}, ctx.repo, b._cls_.module, b._cls_, hook).fold(ast.parse("b.finalize()", mode="eval").body)
-    except Raised as r:
-        out.raised = r.cls_name
-    except Unfoldable as ex:
-        raise AnalysisError("cannot evaluate the parser over the abstract text %r: %s" % (text_of(lines, final_eol), ex))
+    for i, ln in enumerate(all_lines):
+        if i:
+            pm.visit(me, hook, "end_of_line", node("\n"), [])
+        kids: List[Any] = []
+        if ln.kind in stmt_rule:
+            rule = stmt_rule[ln.kind]
+            children = [child_of(el, ln, i) for el in pm.seq_of(rule)] if ln.kind != "M" else []
+            st_text = repr(Line(ln.kind, ln.name, None, ln.directive, ln.value))
+            r = pm.visit(me, hook, rule, node(st_text), children)
+            for w in wrappers[ln.kind]:
+                r = pm.visit(me, hook, w, node(st_text), [r])
+            kids.append(r)
+        if ln.comment is not None:
+            kids.append(pm.visit(me, hook, "comment", node("#" + ln.comment), []))
+        pm.visit(me, hook, "line", node(repr(ln)), kids)
+    pm.visit(me, hook, "definition", node(text_of(lines, final_eol)), [])
+
+
+def _collect(out: DocRun, run: B.BuilderRun, handler: Any) -> None:
     for kind, kw in run.attr_log:
         out.attrs.append((kind, str(kw.get("name", "")), kw.get("doc", "")))
         out.operands.append((kind, str(kw.get("name", "")), getattr(kw.get("data_type"), "label", None), getattr(kw.get("value"), "label", None)))
@@ -209,4 +211,76 @@ def read_lines(pm: ParserModel, lines: Sequence[Line], final_eol: bool) -> DocRu
     for kind, kw in run.ctor_log:
         attrs = kw.get("attributes")
         out.composites.append((kind, [getattr(a, "name", "?") for a in (attrs or [])], kw.get("doc", "")))
+
+
+def read_lines(pm: ParserModel, lines: Sequence[Line], final_eol: bool) -> DocRun:
+    """the visits parsimonious makes for the text, evaluated; then finalize()"""
+    ctx = pm.ctx
+    from ..absint import Recorder
+
+    handler = Recorder("print-handler")
+    me, b, run, hook = pm.fresh(handler=handler)
+    out = DocRun()
+    try:
+        drive(pm, me, hook, lines, final_eol, out)
+        out.result = Folder({"b": b}, ctx.repo, b._cls_.module, b._cls_, hook).fold(ast.parse("b.finalize()", mode="eval").body)
+    except Raised as r:
+        out.raised = r.cls_name
+    except Unfoldable as ex:
+        raise AnalysisError("cannot evaluate the parser over the abstract text %r: %s" % (text_of(lines, final_eol), ex))
+    _collect(out, run, handler)
+    return out
+
+
+def parse_lines(pm: ParserModel, lines: Sequence[Line], final_eol: bool, faulty: Sequence[str] = ()) -> DocRun:
+    """the repository's own `parse(text, statement_stream_processor)` evaluated from its source - so that its error funnel
+    takes part - with the tree visit replaced by the visits parsimonious would make for the abstract text.  An attribute whose
+    name is in `faulty` cannot be constructed: its constructor raises an invalid-definition error that carries no location
+    (what the type model does for, say, a constant that does not fit its type).  The result records the error that leaves
+    `parse`: its class and the line stamped on it (`out.error_line`)."""
+    ctx = pm.ctx
+    from ..absint import AExc, Recorder, call_fn
+    from ..core import dotted as _dotted
+
+    parse_fn = ctx.func("_parser.parse")
+    handler = Recorder("print-handler")
+    out = DocRun()
+    b, run, bhook = B.make_builder(ctx, handler=handler, base_hook=None)
+    state: Dict[str, Any] = {}
+
+    def hook(e: ast.expr, f: Folder) -> Any:
+        if isinstance(e, ast.Call):
+            name = _dotted(e.func) or ""
+            last = name.split(".")[-1]
+            if last in ("Field", "Constant", "PaddingField") and name.split(".")[0] not in f.env:
+                # the name is the second argument of Field / Constant
+                args = [f.fold(a) for a in e.args]
+                nm = args[1] if len(args) > 1 and last != "PaddingField" else ""
+                if nm in faulty:
+                    r = Raised("InvalidConstantValueError", e)
+                    r.exc = AExc("InvalidConstantValueError")  # type: ignore
+                    raise r
+            if last == "_get_grammar" or (isinstance(e.func, ast.Attribute) and e.func.attr == "parse" and getattr(f.fold(e.func.value) if not isinstance(e.func.value, ast.Call) or (_dotted(e.func.value.func) or "").endswith("_get_grammar") else None, "_kind_", None) == "Grammar"):
+                return Sym(_kind_="Grammar") if last == "_get_grammar" else Sym(_kind_="ParseTree")
+            if isinstance(e.func, ast.Attribute) and e.func.attr == "visit" and len(e.args) == 1:
+                recv = f.fold(e.func.value)
+                if isinstance(recv, AObj) and recv._cls_ is pm.pt:
+                    if getattr(f.fold(e.args[0]), "_kind_", None) == "ParseTree":
+                        state["parser"] = recv
+                        drive(pm, recv, f.hook, lines, final_eol, out)
+                        return None
+        return bhook(e, f)
+
+    try:
+        call_fn(ctx, parse_fn, [text_of(lines, final_eol), b], {"strict": False}, hook=hook, keep=())
+    except Raised as r:
+        out.raised = r.cls_name
+        exc = getattr(r, "exc", None)
+        out.error_line = getattr(exc, "line", None)  # type: ignore
+        out.error_path = getattr(exc, "path", None)  # type: ignore
+    except Unfoldable as ex:
+        raise AnalysisError("cannot evaluate parse() over the abstract text %r: %s" % (text_of(lines, final_eol), ex))
+    if "parser" not in state:
+        raise AnalysisError("parse(): the tree visit (`<processor>.visit(<grammar>.parse(text))`) was not reached")
+    _collect(out, run, handler)
     return out
